@@ -43,7 +43,7 @@ EPS = 2e-3
 
 
 def strategy(tier):
-    return rc.render_case(max_obj=10, max_sp=6, max_fam=4)
+    return rc.render_case(max_obj=10, max_sp=6, max_fam=10)
 
 
 def _inside(pos, rect):
